@@ -47,10 +47,14 @@ def run_check(pid, tier, replay=None):
     ctx = hv.Ctx(pid, tier, seed)
     ctx.replay = json.load(open(replay)) if replay else None
     # 1. tables + proofs
-    ok, out = hv.gen_tables()
-    if not ok:
-        print(out)
+    tables_ok, tables_out = hv.gen_tables()
+    if not tables_ok:
+        print(tables_out)
     proof = hv.check_props(pid)
+    if not tables_ok:
+        # a table generator could not read what it expects from the Rust source: the theorems would be re-checked
+        # against stale tables, so the obligation "tables = source" is broken
+        proof['broken'].append(('gen_tables', tables_out[-600:]))
     forbidden = hv.scan_forbidden()
     # 2. builds (model extraction + harness from /repo's working tree, hooks on)
     ok, out = hv.build_model()
